@@ -8,16 +8,17 @@ Local Open Scope nat_scope.
 
 (* Every string of the documented Fortran number grammar (sign, digits with optional point, exponent
    written E e D d or as a bare sign: 2-1, 2+1; a lone sign) is converted to the value it denotes —
-   for strings of any length — except a SIGNED mantissa with a D exponent (see signed_d_refuted). *)
+   for strings of any length, signed mantissas with a D exponent included (full strength since fix 0a78c77;
+   the former counter-model "-5d1" is Refuted.signed_d_fixed). *)
 Theorem number_forms :
-  forall s : str, fortran_number s = true -> signed_d s = false -> convert s = Some (value s).
+  forall s : str, fortran_number s = true -> convert s = Some (value s).
 Proof. exact number_forms_lemma. Qed.
 
 (* Conversely: over the documented alphabet (digits . + - E e D d) nothing outside the grammar is
-   converted, provided the short-form pattern consumed the whole item (see anchored_refuted,
-   charset_refuted for the two ways the code accepts more). *)
+   converted (full strength since fix 0a78c77: the short-form pattern is matched with fullmatch; outside the
+   alphabet Python's float() still accepts more, see charset_refuted). *)
 Theorem convert_rejects :
-  forall s : str, g_charset s = true -> g_anchored s = true -> fortran_number s = false -> convert s = None.
+  forall s : str, g_charset s = true -> fortran_number s = false -> convert s = None.
 Proof. exact convert_rejects_lemma. Qed.
 
 (* The regular-expression splitter applied to the stripped line yields exactly the items of the
@@ -30,23 +31,22 @@ Theorem split_spec :
 Proof. exact split_spec_lemma. Qed.
 
 (* Padding of short rows and discarding of surplus items: when no row has more usable items than
-   the first one (the code cuts every row to the width of the first, see rows_within_refuted) and the
-   first row is not wider than $INPUT (else KeyError, see frame_rejects / first_width_refuted), every
-   row of the frame has exactly one cell per $INPUT column and, after NULL substitution, it is the
-   row the documentation describes: the first n items, padded with NULL. *)
+   the first one (the code still cuts every row to the width of the first, see rows_within_refuted), every
+   row of the frame IS the row the documentation describes — the first n items, padded with NULL markers —
+   whatever the width of the first row (a wider first row is cut since fix c9e4304, missing columns are
+   padded with None since fix 6a54a3e, so filters see no NULL value). *)
 Theorem pad_strip :
-  forall (n : nat) (nullstr : str) (rows : list (list str)) (fr : list (list (option str))),
-    null_subst nullstr (Some nullstr) = nullstr ->
-    frame n nullstr rows = Ok fr ->
+  forall (n : nat) (rows : list (list str)) (fr : list (list (option str))),
+    frame n rows = Ok fr ->
     forallb (fun r => Nat.min (length r) n <=? length (hd [] rows)) rows = true ->
-    map (map (null_subst nullstr)) fr = map (fun r => map (null_subst nullstr) (spec_shape n r)) rows /\
-    Forall (fun r => length r = n) fr.
+    fr = map (spec_shape n) rows /\ Forall (fun r => length r = n) fr.
 Proof. exact pad_strip_lemma. Qed.
 
-Theorem frame_rejects :
-  forall (n : nat) (nullstr : str) (r0 : list str) (rest : list (list str)),
-    n < length r0 -> frame n nullstr (r0 :: rest) = Err KeyErr.
-Proof. exact frame_rejects_lemma. Qed.
+(* the frame exists for every non-empty list of rows (no KeyError for a wide first row any more) *)
+Theorem frame_total :
+  forall (n : nat) (r0 : list str) (rest : list (list str)),
+    exists fr, frame n (r0 :: rest) = Ok fr /\ length fr = S (length rest).
+Proof. exact frame_total_lemma. Qed.
 
 (* IGNORE/ACCEPT lists: applying the statements one after the other to the whole frame (what the
    code does, converting a numerically compared column for all remaining rows first) equals
@@ -65,8 +65,10 @@ Proof. exact filters_in_order_lemma. Qed.
    NULL=c, IGNORE/ACCEPT lists, missing-data token) that satisfies the guard, the dataset the code
    computes, restricted to the columns that are not dropped, is exactly the dataset of the
    reference reader written from docs/NONMEM.rst — same error class when the input is rejected, same
-   columns, same rows, same exact values.  Every guard conjunct marked [finding] in Spec.v is
-   necessary (Refuted.v); the [class] conjuncts delimit the inputs the documentation speaks about. *)
+   columns, same rows, same exact values.  After the fix commits 8a96a4a, f9c38b4, 0a78c77, 6a54a3e, c9e4304 the
+   guard has lost the conjuncts g_ignchar, g_last_comment, g_blank, g_first_width, g_filter_cols, g_time_col and
+   the signed-D / anchoring item conjuncts; the remaining [finding] conjuncts (g_rows_within, g_items charset,
+   g_id_drop) are necessary (Refuted.v); the [class] conjuncts delimit the inputs the documentation speaks about. *)
 Theorem reader_refines :
   forall i : input, guard i = true -> project_kept i (read_model i) = spec_read i.
 Proof. exact reader_refines_lemma. Qed.
